@@ -132,3 +132,53 @@ Example C17_example_independent :
   | Fault _ => False
   end.
 Proof. exact ex17_independent_run. Qed.
+
+(* ---- the same over the third layer of client calls (HHist3: op3 / step3); operands3, op_reach3,
+   footprint3 are the analogues of operands, op_reach, footprint ---- *)
+From CB Require Import HHist2 HHist3.
+Theorem C17_step3_frame : forall refuse L s o w s' out w',
+  HCont_proofs.wf w -> step3 refuse L s o w = Ret (s', out) w' ->
+  next w <= next w' /\
+  forall b, b < next w -> ~ op_reach3 s o w b -> heap w' b = heap w b.
+Proof. exact HFrame_proofs.C17_step3_frame. Qed.
+Print Assumptions C17_step3_frame.
+Theorem C17_step3_footprint : forall refuse L s o w s' out w',
+  HCont_proofs.wf w -> step3 refuse L s o w = Ret (s', out) w' ->
+  (exists acc, alog w' = acc ++ alog w /\ Forall (fun x => footprint3 s o w (acc_addr x)) acc) /\
+  (exists evs, trace w' = evs ++ trace w /\
+     Forall (fun e => (forall p, In p (ev_args e) -> footprint3 s o w p) /\
+                      (forall p, In p (ev_res e) -> next w <= p)) evs).
+Proof. exact HFrame_proofs.C17_step3_footprint. Qed.
+Print Assumptions C17_step3_footprint.
+Theorem C17_step3_independent : forall refuse L s o w w2 s' out w',
+  HCont_proofs.wf w -> step3 refuse L s o w = Ret (s', out) w' ->
+  HCont_proofs.wf w2 -> next w2 = next w -> nreq w2 = nreq w ->
+  (forall b, op_reach3 s o w b -> heap w2 b = heap w b) ->
+  exists w2', step3 refuse L s o w2 = Ret (s', out) w2' /\
+    next w2' = next w' /\ nreq w2' = nreq w' /\
+    (forall b, footprint3 s o w b -> heap w2' b = heap w' b).
+Proof. exact HFrame_proofs.C17_step3_independent. Qed.
+Print Assumptions C17_step3_independent.
+Theorem C17_history3_frame : forall refuse L pre o s outs w s' out w',
+  run_hist3 refuse L pre s3_0 [] world0 = Ret (s, outs) w ->
+  step3 refuse L s o w = Ret (s', out) w' ->
+  next w <= next w' /\
+  (forall b, b < next w -> ~ op_reach3 s o w b -> heap w' b = heap w b) /\
+  (exists acc, alog w' = acc ++ alog w /\ Forall (fun x => footprint3 s o w (acc_addr x)) acc) /\
+  (exists evs, trace w' = evs ++ trace w /\
+     Forall (fun e => (forall p, In p (ev_args e) -> footprint3 s o w p) /\
+                      (forall p, In p (ev_res e) -> next w <= p)) evs).
+Proof. exact HFrame_proofs.C17_history3_frame. Qed.
+Print Assumptions C17_history3_frame.
+(* non-vacuity: cbor_set_uint8(first, 300) stores 44 into the first of two cbor_new_int8 items and
+   leaves the second alone *)
+Example C17_example3_frame :
+  match step3 HRef_proofs.never 8 (fst ex17c_sw) (O3SetUint I8 0 300) (snd ex17c_sw) with
+  | Ret (s', out) w' =>
+      heap w' 2 = heap (snd ex17c_sw) 2 /\
+      heap w' 1 = Some (CItem 1 (NInt false I8 44)) /\ heap w' 2 = Some (CItem 1 (NInt false I8 9)) /\
+      unset (fst ex17c_sw) = [1] /\ unset s' = []
+  | Fault _ => False
+  end.
+Proof. exact ex17c_frame. Qed.
+
